@@ -210,6 +210,11 @@ func loadDependencyOutputsIfNeeded(ctx context.Context, logger *console.Logger, 
 	if err := executor.LoadDependencyOutputs(ctx, runTarget, func(_ worker.StatusUpdate) {}); err != nil {
 		logger.Fatalf("could not load dependencies: %v", err)
 	}
+	// The binary that is about to be started is an output of the run target itself: a cache
+	// hit under load_outputs=minimal has not put it into the workspace.
+	if err := executor.LoadTargetOutputs(ctx, runTarget, func(_ worker.StatusUpdate) {}); err != nil {
+		logger.Fatalf("could not load outputs of %s: %v", runTarget.Label, err)
+	}
 }
 
 func splitRunArgs(args []string, argsLenAtDash int) ([]string, []string, error) {
